@@ -119,7 +119,8 @@ fn check(id: &str, tier: Tier) -> i32 {
         "C02" => {
             let n = ctx.runs(12_000, 400_000);
             let nc = ctx.runs(2_500, 25_000);
-            run_check(&props::c02::C02, &ctx, &[("programs", n), ("corpus", nc)], |_, _, _| Vec::new()).exit
+            let ns = ctx.runs(3_000, 60_000);
+            run_check(&props::c02::C02, &ctx, &[("programs", n), ("corpus", nc), ("sessions", ns)], |_, _, _| Vec::new()).exit
         }
         _ => {
             eprintln!("HARNESS-ERROR: unknown or not-applicable property {}", id);
